@@ -28,13 +28,14 @@ def _style_key(st):
     return (frozenset(a for a in ATTRS if getattr(st, a)), _col_key(st.color), _col_key(st.bgcolor), st.link)
 
 
-def _mk_style(e, p):
+def _mk_style(e, p, small=False):
     kw = {}
-    i = int(e.mk(p + "attr", 0, 13))
-    if i < 13:
+    i = int(e.mk(p + "attr", 0, 13 if not small else 2))
+    if i < (13 if not small else 2):
         kw[ATTRS[i]] = True
-    fg = COLORS[int(e.mk(p + "fg", 0, len(COLORS) - 1))]
-    bg = COLORS[int(e.mk(p + "bg", 0, len(COLORS) - 1))]
+    cols = COLORS if not small else [None, COLORS[2], COLORS[6]]
+    fg = cols[int(e.mk(p + "fg", 0, len(cols) - 1))]
+    bg = cols[int(e.mk(p + "bg", 0, len(cols) - 1))]
     link = [None, "http://x/y", "https://e.org/app;jsessionid=1A2B?x=1&y=2"][int(e.mk(p + "link", 0, 2))]
     return Style(color=fg, bgcolor=bg, link=link, **kw)
 
@@ -72,10 +73,11 @@ def c19_rt1(e):
 
 
 @symx("C19-roundtrip-two-styles", timeout=3000, kind="P", functions=F_D, tiers=("thorough",),
-      bounds="two adjacent differently styled segments (each: <=1 attribute, fg, bg from 7 representatives, link) followed by a newline "
+      bounds="two adjacent differently styled segments (first: <=1 attribute, fg, bg from 8 representatives, link; second: none/bold/dim, "
+             "fg and bg from 3 representatives, link) followed by a newline "
              "and a third segment: decoder state must not leak between them")
 def c19_rt2(e):
-    s1, s2 = _mk_style(e, "s"), _mk_style(e, "t")
+    s1, s2 = _mk_style(e, "s"), _mk_style(e, "t", small=True)
     return _roundtrip_ok([Segment("a", s1), Segment("b", s2), Segment("\n"), Segment("c", s1)])
 
 
